@@ -396,7 +396,7 @@ where
             .expect("subslice should succeed");
         Ok(self
             .store()
-            .utf8byte_to_charpos(self.absolute_cursor(beginbyte + bytecursor))?
+            .utf8byte_to_charpos(beginbyte + bytecursor)?
             - self.begin())
     }
 
@@ -588,7 +588,7 @@ where
             .expect("subslice should succeed");
         Ok(self
             .store()
-            .utf8byte_to_charpos(self.absolute_cursor(beginbyte + bytecursor))?
+            .utf8byte_to_charpos(beginbyte + bytecursor)?
             - self.begin())
     }
 
